@@ -19,7 +19,7 @@ use std::collections::{BTreeMap, BTreeSet};
 use std::io::Write;
 use std::path::{Path, PathBuf};
 use std::sync::atomic::{AtomicUsize, Ordering};
-use std::sync::{Arc, OnceLock};
+use std::sync::{Arc, Mutex, OnceLock};
 
 use mc_core::{Ctx, Report, catch, par_map};
 use serde::{Deserialize, Serialize};
@@ -29,7 +29,9 @@ use sha2::{Digest, Sha256};
 use mithril_cardano_node_internal_database::entities::AncillaryFilesManifest;
 use mithril_client::cardano_database_client::{DownloadUnpackOptions, ImmutableFileRange};
 use mithril_client::feedback::FeedbackSender;
-use mithril_client::file_downloader::{FileDownloadRetryPolicy, HttpFileDownloader, RetryDownloader};
+use mithril_client::file_downloader::{
+    DownloadEvent, FileDownloadRetryPolicy, FileDownloader, FileDownloaderUri, HttpFileDownloader, RetryDownloader,
+};
 use mithril_client::{AggregatorDiscoveryType, Client, ClientBuilder, GenesisVerificationKey};
 use mithril_common::crypto_helper::{ManifestSignature, ManifestSigner, ManifestVerifierSecretKey};
 use mithril_common::entities::{
@@ -126,6 +128,10 @@ enum Kind {
     Dir,
     Symlink(String),
     Hardlink(String),
+    /// a file `<path>/state` with these bytes, then the directory entry `<path>/` carrying this
+    /// mode (tar applies directory modes last): 0555 / 0000 make the content unremovable for a
+    /// client that does not run as root
+    RestrictedDir { mode: u32, inner: Vec<u8> },
 }
 
 #[derive(Clone, Debug)]
@@ -213,10 +219,47 @@ impl Alt {
     }
 }
 
+/// what the pace of the mirror decides for one transfer
+#[derive(Clone, Copy, Debug, Serialize, Deserialize, PartialEq, Eq, Hash)]
+enum Step {
+    /// the transfer completes
+    Complete,
+    /// everything served so far is received and unpacked, the end of the transfer is pending
+    Hold,
+    /// the mirror answers with an error
+    Fail,
+}
+
+/// Pace of the mirror. `Free`: no pacing (what the first version of this check did). `Steps`: the
+/// transfers are served one after the other in this order (max_parallel_downloads = 20, so the
+/// client has all of them in flight); a step only starts when the task of the previous one is
+/// over (for the ancillary archive: verified, moved and its unpack directory emptied).
+#[derive(Clone, Debug, Default, Serialize, Deserialize, PartialEq, Eq, Hash)]
+enum Schedule {
+    #[default]
+    Free,
+    Steps(Vec<(Arch, Step)>),
+}
+
 #[derive(Clone, Debug, Serialize, Deserialize, PartialEq, Eq, Hash)]
 struct Case {
     config: Config,
     alts: Vec<Alt>,
+    #[serde(default)]
+    schedule: Schedule,
+}
+
+impl Case {
+    fn new(config: Config, alts: Vec<Alt>) -> Case {
+        Case { config, alts, schedule: Schedule::Free }
+    }
+    /// restrictive permissions only bite a client that is not root
+    fn needs_unprivileged(&self) -> bool {
+        self.alts.iter().any(|a| matches!(a, Alt::Add { extra, .. } if extra.starts_with("dir0")))
+    }
+    fn holds(&self) -> bool {
+        matches!(&self.schedule, Schedule::Steps(s) if s.iter().any(|(_, k)| *k == Step::Hold))
+    }
 }
 
 fn sha_hex(b: &[u8]) -> String {
@@ -269,6 +312,7 @@ fn mk_extra(origin: &str, path: &str, kind: Option<Kind>) -> Extra {
         Kind::Dir => format!("dir:{path}"),
         Kind::Symlink(t) => format!("symlink:{path}->{t}"),
         Kind::Hardlink(t) => format!("hardlink:{path}->{t}"),
+        Kind::RestrictedDir { mode, .. } => format!("dir{mode:04o}-with-file:{path}"),
     };
     Extra { name, entry: Entry { path: path.to_string(), kind } }
 }
@@ -320,6 +364,13 @@ fn imm_extras(n: u64) -> Vec<Extra> {
     ] {
         v.push(mk_extra(&o, p, Some(Kind::Symlink(format!("{OUT}/{t}")))));
     }
+    // named like files the signed manifest vouches for (both layouts)
+    for p in ["ledger/737/meta", "ledger/737"] {
+        v.push(mk_extra(&o, p, None));
+    }
+    for (p, mode) in [("immutable/restricted", 0o555u32), ("ledger/999", 0o555), ("immutable/restricted", 0o000)] {
+        v.push(mk_extra(&o, p, Some(Kind::RestrictedDir { mode, inner: body(&format!("{o}|extra|{p}/state")) })));
+    }
     v.push(mk_extra(&o, "ledger/hardlink", Some(Kind::Hardlink(format!("immutable/{own}.chunk")))));
     v.push(mk_extra(&o, "stray-hardlink", Some(Kind::Hardlink(format!("{OUT}/victim.txt")))));
     v
@@ -352,6 +403,9 @@ fn anc_extras() -> Vec<Extra> {
     v.push(mk_extra(o, "ledger-link", Some(Kind::Symlink(format!("{OUT}/victim.txt")))));
     v.push(mk_extra(o, "volatile", Some(Kind::Symlink(format!("{OUT}/vol-out")))));
     v.push(mk_extra(o, "clean", Some(Kind::Symlink(format!("{OUT}/victim-clean")))));
+    for (p, mode) in [("ledger/999", 0o555u32), ("ledger/999", 0o000), ("volatile", 0o555)] {
+        v.push(mk_extra(o, p, Some(Kind::RestrictedDir { mode, inner: body(&format!("{o}|extra|{p}/state")) })));
+    }
     v.push(mk_extra(o, "ledger/hard-unlisted", Some(Kind::Hardlink("immutable/00004.chunk".into()))));
     v
 }
@@ -630,6 +684,20 @@ fn tar_bytes(entries: &[Entry], out: &Path) -> (Vec<u8>, Vec<usize>) {
                 h.set_size(0);
                 b.append_data(&mut h, format!("{path}/"), std::io::empty()).expect("tar append dir");
             }
+            Kind::RestrictedDir { mode, inner } => {
+                h.set_entry_type(tar::EntryType::Regular);
+                h.set_mode(0o644);
+                h.set_size(inner.len() as u64);
+                b.append_data(&mut h, format!("{path}/state"), &inner[..]).expect("tar append");
+                let mut d = tar::Header::new_gnu();
+                d.set_mtime(1_700_000_000);
+                d.set_uid(0);
+                d.set_gid(0);
+                d.set_entry_type(tar::EntryType::Directory);
+                d.set_mode(*mode);
+                d.set_size(0);
+                b.append_data(&mut d, format!("{path}/"), std::io::empty()).expect("tar append dir");
+            }
             Kind::Symlink(t) | Kind::Hardlink(t) => {
                 h.set_entry_type(if matches!(e.kind, Kind::Symlink(_)) { tar::EntryType::Symlink } else { tar::EntryType::Link });
                 h.set_mode(0o777);
@@ -743,8 +811,184 @@ fn show(n: &Node) -> String {
 // one case on the real client
 // ------------------------------------------------------------------------------------------------
 
+/// The only double on the download path: it forwards every call, untouched, to the real
+/// `RetryDownloader(HttpFileDownloader)` and decides WHEN a transfer is served and whether its end
+/// is reported (a mirror's pace, an open connection, an error answer). It never sees a byte.
+struct Pace {
+    inner: Arc<dyn FileDownloader>,
+    state: Mutex<PaceState>,
+}
+
+#[derive(Default)]
+struct PaceState {
+    steps: Vec<(Arch, Step)>,
+    /// index of the step that may run now
+    next: usize,
+    /// set when the previous step was the ancillary transfer completing: its task still has to
+    /// verify, move and empty the unpack directory
+    ancillary_settles_in: Option<(PathBuf, std::time::Instant)>,
+    /// transfers the client has asked for so far
+    requested: BTreeSet<Arch>,
+    /// calls of the client that have not returned (waiting for their turn, running or pending)
+    in_flight: usize,
+    /// calls forwarded to the real downloader right now
+    running: usize,
+    /// the transfer that is to be answered with an error has been asked for
+    fail_requested: bool,
+    stalled_since: Option<std::time::Instant>,
+}
+
+/// how long nothing must move before the pace concludes that the client does not ask for a
+/// transfer in this phase (the ancillary task asks after a round trip to the blocking pool)
+const STALL_MS: u128 = 400;
+
+/// keeps the counters right when the client drops (aborts) a call
+struct Counted<'a> {
+    pace: &'a Pace,
+    running: bool,
+}
+
+impl Drop for Counted<'_> {
+    fn drop(&mut self) {
+        let mut st = self.pace.state.lock().unwrap();
+        st.in_flight -= 1;
+        if self.running {
+            st.running -= 1;
+        }
+    }
+}
+
+impl Pace {
+    fn arm(&self, schedule: &Schedule) {
+        let mut st = self.state.lock().unwrap();
+        *st = PaceState::default();
+        if let Schedule::Steps(steps) = schedule {
+            st.steps = steps.clone();
+        }
+    }
+    fn arch_of(location: &str) -> Arch {
+        match location.rsplit('/').next().unwrap_or("").strip_prefix("imm-").and_then(|r| r.split('.').next()).and_then(|n| n.parse().ok()) {
+            Some(n) => Arch::Imm(n),
+            None => Arch::Anc,
+        }
+    }
+    fn ancillary_unpack_dir_present(target: &Path) -> bool {
+        std::fs::read_dir(target)
+            .map(|rd| rd.flatten().any(|e| e.file_name().to_string_lossy().starts_with("ancillary-")))
+            .unwrap_or(false)
+    }
+}
+
+#[async_trait::async_trait]
+impl FileDownloader for Pace {
+    async fn download_unpack(
+        &self,
+        location: &FileDownloaderUri,
+        file_size: u64,
+        target_dir: &Path,
+        compression_algorithm: Option<CompressionAlgorithm>,
+        download_event_type: DownloadEvent,
+    ) -> mithril_common::StdResult<()> {
+        let arch = Self::arch_of(location.as_str());
+        let mine = {
+            let st = self.state.lock().unwrap();
+            st.steps.iter().position(|(a, _)| *a == arch).map(|i| (i, st.steps[i].1))
+        };
+        let Some((index, step)) = mine else {
+            // no pacing for this transfer
+            return self.inner.download_unpack(location, file_size, target_dir, compression_algorithm, download_event_type).await;
+        };
+        {
+            let mut st = self.state.lock().unwrap();
+            st.requested.insert(arch.clone());
+            st.in_flight += 1;
+            if step == Step::Fail {
+                st.fail_requested = true;
+            }
+        }
+        let mut counted = Counted { pace: self, running: false };
+        // wait for my turn (bounded: a schedule that can not proceed must not hang the sweep)
+        let started = std::time::Instant::now();
+        loop {
+            let ready = {
+                let mut st = self.state.lock().unwrap();
+                let settling = match &st.ancillary_settles_in {
+                    Some((target, since)) => Self::ancillary_unpack_dir_present(target) && since.elapsed().as_millis() < 1500,
+                    None => false,
+                };
+                if !settling {
+                    st.ancillary_settles_in = None;
+                }
+                if st.next >= index {
+                    // my turn (or my step was passed over before the client asked for this transfer)
+                    !settling
+                } else {
+                    // a step whose transfer the client does not ask for while nothing else moves
+                    // (it runs that transfer in a later phase, or never) is passed over
+                    let waiting_for = st.steps[st.next].0.clone();
+                    if !settling && st.running == 0 && !st.requested.contains(&waiting_for) {
+                        let since = *st.stalled_since.get_or_insert_with(std::time::Instant::now);
+                        if since.elapsed().as_millis() >= STALL_MS {
+                            st.next += 1;
+                            st.stalled_since = None;
+                        }
+                    } else {
+                        st.stalled_since = None;
+                    }
+                    false
+                }
+            };
+            if ready || started.elapsed().as_secs() > 20 {
+                break;
+            }
+            tokio::time::sleep(std::time::Duration::from_millis(1)).await;
+        }
+        let advance = |settle: Option<PathBuf>| {
+            let mut st = self.state.lock().unwrap();
+            st.next = st.next.max(index + 1);
+            st.ancillary_settles_in = settle.map(|p| (p, std::time::Instant::now()));
+        };
+        match step {
+            Step::Fail => {
+                advance(None);
+                Err(anyhow::anyhow!("mirror answers 500 for {}", location.as_str()))
+            }
+            Step::Complete | Step::Hold => {
+                self.state.lock().unwrap().running += 1;
+                counted.running = true;
+                let r = self.inner.download_unpack(location, file_size, target_dir, compression_algorithm, download_event_type).await;
+                self.state.lock().unwrap().running -= 1;
+                counted.running = false;
+                // the ancillary archive is unpacked into <target>/ancillary-<id>: its task goes on after this call
+                let settle = if arch == Arch::Anc && step == Step::Complete { target_dir.parent().map(|p| p.to_path_buf()) } else { None };
+                advance(settle);
+                if step == Step::Hold && r.is_ok() {
+                    // The end of the transfer is pending as long as the client has other calls in
+                    // flight: only an abort of the task ends it. When the client waits for nothing
+                    // else and never asked for the transfer that is to fail (it runs it in a later
+                    // phase), the mirror ends the transfer - a hang is not C19's subject.
+                    let mut alone_since: Option<std::time::Instant> = None;
+                    loop {
+                        tokio::time::sleep(std::time::Duration::from_millis(1)).await;
+                        let st = self.state.lock().unwrap();
+                        if st.in_flight == 1 && !st.fail_requested {
+                            if alone_since.get_or_insert_with(std::time::Instant::now).elapsed().as_millis() >= STALL_MS {
+                                break;
+                            }
+                        } else {
+                            alone_since = None;
+                        }
+                    }
+                }
+                r
+            }
+        }
+    }
+}
+
 struct Worker {
     client: Client,
+    pace: Arc<Pace>,
     base: PathBuf,
 }
 
@@ -766,6 +1010,8 @@ fn new_worker() -> Worker {
         Arc::new(HttpFileDownloader::new(feedback, logger).expect("HttpFileDownloader::new")),
         FileDownloadRetryPolicy { attempts: 2, delay_between_attempts: std::time::Duration::from_secs(0) },
     ));
+    let pace = Arc::new(Pace { inner: downloader, state: Mutex::new(PaceState::default()) });
+    let downloader = pace.clone();
     let vk = keys().configured.verification_key().to_json_hex().expect("verification key hex");
     let client = ClientBuilder::new(AggregatorDiscoveryType::Url("http://127.0.0.1:9/".to_string()))
         .set_genesis_verification_key(GenesisVerificationKey::JsonHex(
@@ -776,7 +1022,7 @@ fn new_worker() -> Worker {
         .set_ancillary_verification_key(vk)
         .build()
         .expect("ClientBuilder::build");
-    Worker { client, base }
+    Worker { client, pace, base }
 }
 
 fn with_worker<T>(f: impl FnOnce(&Worker) -> T) -> T {
@@ -797,6 +1043,25 @@ fn user_files() -> Vec<(&'static str, Vec<u8>)> {
         ("ledger/old-ledger", body("USER|ledger/old-ledger")),
         ("volatile/blocks-9.dat", body("USER|volatile/blocks-9.dat")),
     ]
+}
+
+/// remove a case directory whatever permissions the unpacked archives left in it (the worker may not be root)
+fn force_remove(dir: &Path) {
+    use std::os::unix::fs::PermissionsExt;
+    fn open_up(dir: &Path) {
+        let _ = std::fs::set_permissions(dir, std::fs::Permissions::from_mode(0o700));
+        if let Ok(rd) = std::fs::read_dir(dir) {
+            for e in rd.flatten() {
+                if e.file_type().map(|t| t.is_dir()).unwrap_or(false) {
+                    open_up(&e.path());
+                }
+            }
+        }
+    }
+    if std::fs::symlink_metadata(dir).is_ok() {
+        open_up(dir);
+        let _ = std::fs::remove_dir_all(dir);
+    }
 }
 
 fn write_file(p: &Path, c: &[u8]) {
@@ -825,7 +1090,7 @@ fn execute(w: &Worker, case: &Case) -> Observed {
     let cfg = &case.config;
     let t0 = std::time::Instant::now();
     let root = w.base.join("case");
-    let _ = std::fs::remove_dir_all(&root);
+    force_remove(&root);
     let target = root.join("target");
     let out = root.join("outside");
     let mirror = root.join("mirror");
@@ -913,8 +1178,9 @@ fn execute(w: &Worker, case: &Case) -> Observed {
     let options = DownloadUnpackOptions {
         allow_override: cfg.pre == Pre::UserFiles,
         include_ancillary: cfg.ancillary,
-        max_parallel_downloads: cfg.parallel,
+        max_parallel_downloads: if case.schedule == Schedule::Free { cfg.parallel } else { 20 },
     };
+    w.pace.arm(&case.schedule);
     let t1 = std::time::Instant::now();
     let before = snap(&root);
     let t2 = std::time::Instant::now();
@@ -923,9 +1189,14 @@ fn execute(w: &Worker, case: &Case) -> Observed {
         // a runtime per case: dropping it waits for every blocking unpack task, so nothing
         // writes after the "after" snapshot is taken
         let rt = tokio::runtime::Builder::new_current_thread().enable_all().max_blocking_threads(8).build().expect("runtime");
-        let r = rt.block_on(w.client.cardano_database_v2().download_unpack(&message, &range, &target, options));
+        let r = rt.block_on(async {
+            tokio::time::timeout(std::time::Duration::from_secs(60), w.client.cardano_database_v2().download_unpack(&message, &range, &target, options)).await
+        });
         drop(rt);
-        r.map_err(|e| format!("{e:#}"))
+        match r {
+            Ok(r) => r.map_err(|e| format!("{e:#}")),
+            Err(_) => Err("HARNESS-TIMEOUT: download_unpack did not return within 60 s".to_string()),
+        }
     });
     let result = match result {
         Ok(r) => r,
@@ -934,7 +1205,7 @@ fn execute(w: &Worker, case: &Case) -> Observed {
     let t3 = std::time::Instant::now();
     let after = snap(&root);
     let t4 = std::time::Instant::now();
-    let _ = std::fs::remove_dir_all(&root);
+    force_remove(&root);
     let t5 = std::time::Instant::now();
     T_SETUP.fetch_add((t1 - t0).as_micros() as usize, Ordering::Relaxed);
     T_SNAP.fetch_add(((t2 - t1) + (t4 - t3)).as_micros() as usize, Ordering::Relaxed);
@@ -1086,6 +1357,9 @@ fn judge(case: &Case, obs: &Observed) -> Judgement {
     for (n, d) in &obs.imm {
         for e in &d.all {
             if let Some(p) = landing_path(&e.path.replace(OUT, "/outside-abs")) {
+                if matches!(e.kind, Kind::RestrictedDir { .. }) {
+                    origin.entry(format!("{p}/state")).or_insert(format!("IMM|{n}"));
+                }
                 origin.entry(p).or_insert(format!("IMM|{n}"));
             }
         }
@@ -1093,6 +1367,9 @@ fn judge(case: &Case, obs: &Observed) -> Judgement {
     if let Some(d) = &obs.anc {
         for e in &d.all {
             if let Some(p) = landing_path(&e.path.replace(OUT, "/outside-abs")) {
+                if matches!(e.kind, Kind::RestrictedDir { .. }) {
+                    origin.entry(format!("{p}/state")).or_insert("ANC".into());
+                }
                 origin.entry(p).or_insert("ANC".into());
             }
         }
@@ -1150,8 +1427,34 @@ fn judge(case: &Case, obs: &Observed) -> Judgement {
     // (B) every new or changed node below the target is one the property allows
     for k in &changed {
         let Some(rel) = k.strip_prefix("target/") else { continue };
-        j.target_changed = true;
+        let bare_unpack_dir = rel.starts_with("ancillary-") && !rel.contains('/');
+        if !bare_unpack_dir {
+            j.target_changed = true;
+        }
         let node = &obs.after[k];
+        if rel.split('/').next().is_some_and(|f| f.starts_with("ancillary-")) {
+            if !rel.contains('/') {
+                // the bare directory: judged through what is below it. (An EMPTY one can be re-created by
+                // the detached unpack thread of a download that failed before any byte was read - tar
+                // creates its destination directory; timing dependent, not counted.)
+                continue;
+            }
+            // root causes differ: the removal is never reached (abort of the task), it runs and
+            // fails (permissions carried by the archive), or it is skipped on an error return
+            let key = if case.holds() {
+                "C19/ancillary-temp-dir-left-behind-after-abort"
+            } else if case.needs_unprivileged() {
+                "C19/ancillary-temp-dir-left-behind-after-failed-removal"
+            } else {
+                "C19/ancillary-temp-dir-left-behind"
+            };
+            let all: Vec<String> = changed.iter().filter(|c| c.strip_prefix("target/").is_some_and(|r| r.starts_with("ancillary-"))).cloned().collect();
+            j.violations.push((
+                key.into(),
+                format!("the client's ancillary unpack directory and what the mirror's archive put into it are still in the target: {}", describe(&all).replace(char::is_control, " ")),
+            ));
+            continue;
+        }
         if *node == Node::Dir {
             continue; // directories are judged through what they contain
         }
@@ -1159,13 +1462,6 @@ fn judge(case: &Case, obs: &Observed) -> Judgement {
             Node::File(c) => Some(c.clone()),
             _ => None,
         };
-        if rel.split('/').next().is_some_and(|f| f.starts_with("ancillary-")) {
-            j.violations.push((
-                "C19/ancillary-temp-dir-left-behind".into(),
-                format!("the client's temporary ancillary directory and what was unpacked into it are still in the target: {}", describe(std::slice::from_ref(k)).replace(char::is_control, " ")),
-            ));
-            continue;
-        }
         let from_anc = content.as_ref().is_some_and(|c| c.starts_with(b"ANC|"))
             || (content.is_none() && origin.get(rel).map(|o| o == "ANC").unwrap_or(false));
         // ancillary verification failed (or the option is off): nothing of that archive stays
@@ -1191,7 +1487,7 @@ fn judge(case: &Case, obs: &Observed) -> Judgement {
         }
         // immutable file of the requested range (with the ancillary option also trio BEACON+1)
         if let Some(n) = trio_number(rel)
-            && (requested.contains(&n) || (cfg.ancillary && n == BEACON + 1))
+            && requested.contains(&n)
         {
             j.kept_immutables += 1;
             if from_anc {
@@ -1200,9 +1496,22 @@ fn judge(case: &Case, obs: &Observed) -> Judgement {
             continue;
         }
         // ancillary file vouched by the signed manifest, with the vouched bytes
+        let imm_bytes = content.as_ref().is_some_and(|c| c.starts_with(b"IMM|"));
         if cfg.ancillary
             && let Some(h) = sg.data.get(rel)
+            && !(imm_bytes && !rel.starts_with("immutable/"))
         {
+            if imm_bytes {
+                // trio BEACON+1 belongs to the ancillary archive alone: only the vouched bytes may sit there
+                j.violations.push((
+                    "C19/immutable-archive-entry-under-ancillary-trio-name-kept".into(),
+                    format!(
+                        "`{rel}` is outside the requested range {requested:?}; the signed manifest vouches it with sha256 {h}, but it holds bytes an IMMUTABLE archive carried (the clean-up expects the name whatever archive wrote it): {}",
+                        describe(std::slice::from_ref(k))
+                    ),
+                ));
+                continue;
+            }
             let ok = match node {
                 Node::File(c) => &sha_hex(c) == h,
                 Node::Symlink(_) => content_through(&obs.after, k, 0)
@@ -1258,6 +1567,9 @@ fn judge(case: &Case, obs: &Observed) -> Judgement {
                     && trio_number(&format!("immutable/{top}")).is_some_and(|n| requested.contains(&n) || (cfg.ancillary && n == BEACON + 1));
                 if under_expected_name {
                     "C19/entry-nested-under-expected-immutable-name-survives"
+                } else if case.needs_unprivileged() {
+                    // the clean-up runs and fails on the permissions the archive carried
+                    "C19/unexpected-entry-in-immutable-dir-survives-failed-removal"
                 } else {
                     "C19/unexpected-entry-in-immutable-dir-survives"
                 }
@@ -1288,14 +1600,18 @@ fn judge(case: &Case, obs: &Observed) -> Judgement {
             && !obs.before.contains_key(k)
         {
             let has_allowed_child = obs.after.range(format!("{k}/")..).take_while(|(c, _)| c.starts_with(&format!("{k}/"))).any(|(_, n)| *n != Node::Dir);
-            if !has_allowed_child && !matches!(rel, "immutable" | "ledger" | "volatile") {
+            if !has_allowed_child && !matches!(rel, "immutable" | "ledger" | "volatile") && !rel.starts_with("ancillary-") {
                 j.unexpected_dirs += 1;
             }
         }
     }
 
     // (C) completeness of the honest download
-    if case.alts.is_empty() && matches!(cfg.pre, Pre::Empty | Pre::UserFiles) {
+    let mirror_lets_everything_complete = match &case.schedule {
+        Schedule::Free => true,
+        Schedule::Steps(s) => s.iter().all(|(_, k)| *k == Step::Complete),
+    };
+    if case.alts.is_empty() && mirror_lets_everything_complete && matches!(cfg.pre, Pre::Empty | Pre::UserFiles) {
         if let Err(e) = &obs.result {
             j.violations.push(("C19/honest-download-fails".into(), format!("honest mirror, honest manifest, yet download_unpack returned an error: {e}")));
         } else {
@@ -1388,20 +1704,20 @@ fn side_cases(thorough: bool) -> Vec<Case> {
     let mut v = vec![];
     for c in configs(thorough) {
         // honest download with the default parallelism
-        v.push(Case { config: Config { parallel: 20, ..c.clone() }, alts: vec![] });
+        v.push(Case::new(Config { parallel: 20, ..c.clone() }, vec![]));
     }
     for anc in [false, true] {
         let config = Config { range: RangeSel::Range(2, 3), ancillary: anc, pre: Pre::Empty, comp: Comp::Zstd, layout: Layout::InMemory, parallel: 1 };
-        v.push(Case { config: config.clone(), alts: vec![Alt::DeclaredUncompressed { arch: Arch::Imm(2) }] });
+        v.push(Case::new(config.clone(), vec![Alt::DeclaredUncompressed { arch: Arch::Imm(2) }]));
         if anc {
-            v.push(Case { config, alts: vec![Alt::DeclaredUncompressed { arch: Arch::Anc }] });
+            v.push(Case::new(config, vec![Alt::DeclaredUncompressed { arch: Arch::Anc }]));
         }
     }
     for pre in [Pre::UserFilesNoOverride, Pre::Missing] {
         for anc in [false, true] {
             let config = Config { range: RangeSel::Range(2, 3), ancillary: anc, pre, comp: Comp::Zstd, layout: Layout::InMemory, parallel: 1 };
-            v.push(Case { config: config.clone(), alts: vec![] });
-            v.push(Case { config, alts: vec![Alt::Add { arch: Arch::Imm(2), pos: Pos::First, extra: "file:ledger/999".into() }] });
+            v.push(Case::new(config.clone(), vec![]));
+            v.push(Case::new(config, vec![Alt::Add { arch: Arch::Imm(2), pos: Pos::First, extra: "file:ledger/999".into() }]));
         }
     }
     v
@@ -1596,7 +1912,127 @@ fn combos(cfg: &Config) -> Vec<Case> {
         for f in &faults {
             let add = Alt::Add { arch: Arch::Imm(first), pos: Pos::First, extra: extra.into() };
             if compatible(&add, f) {
-                v.push(Case { config: cfg.clone(), alts: vec![add, f.clone()] });
+                v.push(Case::new(cfg.clone(), vec![add, f.clone()]));
+            }
+        }
+    }
+    v
+}
+
+/// Pace of the mirror (range 2..=3 with ancillary, empty target, default parallelism): every
+/// completion ORDER of the three transfers, and every (held, failing) pair: one transfer is
+/// received and unpacked but its end is pending when another one is answered with an error, so
+/// that the client aborts the batch (`abort_all`) while the held task is suspended.
+fn paced_cases(thorough: bool) -> Vec<Case> {
+    let mut v = vec![];
+    let layouts: &[Layout] = if thorough { &[Layout::InMemory, Layout::Legacy] } else { &[Layout::InMemory] };
+    let tasks = [Arch::Imm(2), Arch::Imm(3), Arch::Anc];
+    const ORDER_EXTRAS: [&str; 7] = [
+        "file:immutable/00004.chunk",
+        "file:ledger/737/meta",
+        "file:ledger/737",
+        "file:immutable/00005.chunk",
+        "file:immutable/stray.txt",
+        "file:ledger/999",
+        "symlink:ledger->@OUT@/ledger-out",
+    ];
+    for &layout in layouts {
+        let config = Config { range: RangeSel::Range(2, 3), ancillary: true, pre: Pre::Empty, comp: Comp::Zstd, layout, parallel: 20 };
+        let nl = anc_listed(layout).len();
+        let failing_verification = [
+            Alt::Man(ManAlt::SigRemoved),
+            Alt::Man(ManAlt::SigOtherKey),
+            Alt::Man(ManAlt::Missing),
+            Alt::Tamper { arch: Arch::Anc, idx: 0 },
+            Alt::Tamper { arch: Arch::Anc, idx: nl - 1 },
+            Alt::CutMid { arch: Arch::Anc, entry: 1 },
+            Alt::Missing { arch: Arch::Anc },
+        ];
+        for perm in mc_core::permutations(3) {
+            let schedule = Schedule::Steps(perm.iter().map(|i| (tasks[*i].clone(), Step::Complete)).collect());
+            v.push(Case { config: config.clone(), alts: vec![], schedule: schedule.clone() });
+            for n in [2u64, 3] {
+                for extra in ORDER_EXTRAS {
+                    let add = Alt::Add { arch: Arch::Imm(n), pos: Pos::Last, extra: extra.into() };
+                    v.push(Case { config: config.clone(), alts: vec![add.clone()], schedule: schedule.clone() });
+                    if thorough {
+                        for f in &failing_verification {
+                            v.push(Case { config: config.clone(), alts: vec![add.clone(), f.clone()], schedule: schedule.clone() });
+                        }
+                    }
+                }
+            }
+            for f in &failing_verification {
+                v.push(Case { config: config.clone(), alts: vec![f.clone()], schedule: schedule.clone() });
+            }
+        }
+        for held in &tasks {
+            for failing in &tasks {
+                if held == failing {
+                    continue;
+                }
+                let mut steps: Vec<(Arch, Step)> = tasks.iter().filter(|t| *t != held && *t != failing).map(|t| (t.clone(), Step::Complete)).collect();
+                steps.push((held.clone(), Step::Hold));
+                steps.push((failing.clone(), Step::Fail));
+                let schedule = Schedule::Steps(steps);
+                let mut alts: Vec<Vec<Alt>> = vec![vec![]];
+                match held {
+                    Arch::Anc => {
+                        // the transfer is pending after every number of entries
+                        for keep in 0..=nl {
+                            alts.push(vec![Alt::CutBoundary { arch: Arch::Anc, keep }]);
+                        }
+                        alts.push(vec![Alt::Man(ManAlt::Missing)]);
+                        alts.push(vec![Alt::Man(ManAlt::SigRemoved)]);
+                        for extra in ["file:ledger/evil-unlisted", "file:volatile/blocks-0.dat", "file:clean"] {
+                            for pos in [Pos::First, Pos::Last] {
+                                alts.push(vec![Alt::Add { arch: Arch::Anc, pos, extra: extra.into() }]);
+                            }
+                        }
+                    }
+                    Arch::Imm(n) => {
+                        for keep in 0..3 {
+                            alts.push(vec![Alt::CutBoundary { arch: Arch::Imm(*n), keep }]);
+                        }
+                        alts.push(vec![Alt::Add { arch: Arch::Imm(*n), pos: Pos::First, extra: "file:immutable/stray.txt".into() }]);
+                        alts.push(vec![Alt::Add { arch: Arch::Imm(*n), pos: Pos::First, extra: "file:immutable/00005.chunk".into() }]);
+                    }
+                }
+                for a in alts {
+                    v.push(Case { config: config.clone(), alts: a, schedule: schedule.clone() });
+                }
+            }
+        }
+    }
+    v
+}
+
+/// entries carrying restrictive permissions, together with a failing verification / download
+/// (alone they are part of `singles`); executed by a client that is not root
+fn restricted_permission_pairs(thorough: bool) -> Vec<Case> {
+    let mut v = vec![];
+    let layouts: &[Layout] = if thorough { &[Layout::InMemory, Layout::Legacy] } else { &[Layout::InMemory] };
+    for &layout in layouts {
+        let config = Config { range: RangeSel::Range(2, 3), ancillary: true, pre: Pre::Empty, comp: Comp::Zstd, layout, parallel: 1 };
+        let nl = anc_listed(layout).len();
+        let failing = [
+            Alt::Man(ManAlt::SigRemoved),
+            Alt::Man(ManAlt::Missing),
+            Alt::Tamper { arch: Arch::Anc, idx: nl - 1 },
+            Alt::Missing { arch: Arch::Imm(3) },
+        ];
+        for x in anc_extras().iter().filter(|x| matches!(x.entry.kind, Kind::RestrictedDir { .. })) {
+            for pos in [Pos::First, Pos::Before(nl), Pos::Last] {
+                for f in &failing {
+                    v.push(Case::new(config.clone(), vec![Alt::Add { arch: Arch::Anc, pos: pos.clone(), extra: x.name.clone() }, f.clone()]));
+                }
+            }
+        }
+        for x in imm_extras(2).iter().filter(|x| matches!(x.entry.kind, Kind::RestrictedDir { .. })) {
+            for pos in [Pos::First, Pos::Last] {
+                for f in &failing {
+                    v.push(Case::new(config.clone(), vec![Alt::Add { arch: Arch::Imm(2), pos: pos.clone(), extra: x.name.clone() }, f.clone()]));
+                }
             }
         }
     }
@@ -1606,9 +2042,9 @@ fn combos(cfg: &Config) -> Vec<Case> {
 fn all_cases(thorough: bool) -> Vec<Case> {
     let mut v = vec![];
     for c in configs(thorough) {
-        v.push(Case { config: c.clone(), alts: vec![] });
+        v.push(Case::new(c.clone(), vec![]));
         for a in singles(&c, if thorough { Width::Wide } else { Width::Quick }) {
-            v.push(Case { config: c.clone(), alts: vec![a] });
+            v.push(Case::new(c.clone(), vec![a]));
         }
     }
     v.extend(side_cases(thorough));
@@ -1621,12 +2057,14 @@ fn all_cases(thorough: bool) -> Vec<Case> {
             for i in 0..s.len() {
                 for k in i + 1..s.len() {
                     if compatible(&s[i], &s[k]) {
-                        v.push(Case { config: c.clone(), alts: vec![s[i].clone(), s[k].clone()] });
+                        v.push(Case::new(c.clone(), vec![s[i].clone(), s[k].clone()]));
                     }
                 }
             }
         }
     }
+    v.extend(paced_cases(thorough));
+    v.extend(restricted_permission_pairs(thorough));
     // a case is listed once
     let mut seen = BTreeSet::new();
     v.retain(|c| seen.insert(serde_json::to_string(c).unwrap()));
@@ -1634,6 +2072,106 @@ fn all_cases(thorough: bool) -> Vec<Case> {
 }
 
 // ------------------------------------------------------------------------------------------------
+
+fn report_to_json(r: &Report) -> Value {
+    let mut nt: Vec<u64> = r.nontrivial.iter().copied().collect();
+    nt.sort();
+    json!({
+        "evaluations": r.evaluations,
+        "nontrivial": nt,
+        "samples": r.samples,
+        "extras": r.extras,
+        "outcomes": r.outcomes,
+        "violation_counts": r.violation_counts,
+        "violations": r.violations.iter().map(|v| json!({"key": v.key, "what": v.what, "replay": v.replay})).collect::<Vec<_>>(),
+    })
+}
+
+fn report_from_json(v: &Value) -> Report {
+    let mut r = Report::new("fault_enumeration", "");
+    r.evaluations = v["evaluations"].as_u64().unwrap_or(0);
+    for h in v["nontrivial"].as_array().cloned().unwrap_or_default() {
+        r.nontrivial.insert(h.as_u64().unwrap_or(0));
+    }
+    for s in v["samples"].as_array().cloned().unwrap_or_default() {
+        r.samples.push(s);
+    }
+    for (k, x) in v["extras"].as_object().cloned().unwrap_or_default() {
+        r.extras.insert(k, x);
+    }
+    for (k, x) in v["outcomes"].as_object().cloned().unwrap_or_default() {
+        r.outcomes.insert(k, x.as_u64().unwrap_or(0));
+    }
+    for (k, x) in v["violation_counts"].as_object().cloned().unwrap_or_default() {
+        r.violation_counts.insert(k, x.as_u64().unwrap_or(0));
+    }
+    for x in v["violations"].as_array().cloned().unwrap_or_default() {
+        r.violations.push(mc_core::Violation {
+            key: x["key"].as_str().unwrap_or("").to_string(),
+            what: x["what"].as_str().unwrap_or("").to_string(),
+            replay: x["replay"].clone(),
+        });
+    }
+    r
+}
+
+const NOBODY: u32 = 65534;
+
+fn running_as_root(scratch: &Path) -> bool {
+    use std::os::unix::fs::MetadataExt;
+    let probe = scratch.join("uid-probe");
+    let _ = std::fs::write(&probe, b"");
+    let uid = std::fs::metadata(&probe).map(|m| m.uid()).unwrap_or(1);
+    let _ = std::fs::remove_file(&probe);
+    uid == 0
+}
+
+/// Cases whose fault is a permission: root is not constrained by permissions, so they are executed
+/// by this same binary re-started as `nobody` (setuid/setgid through `Command`), in a directory
+/// handed over to that user; its partial report comes back on stdout.
+fn run_unprivileged(ctx: &Ctx, cases: &[Case], verbose: bool) -> Result<Report, String> {
+    use std::os::unix::process::CommandExt;
+    let dir = SCRATCH.get().expect("scratch").join("unprivileged");
+    std::fs::create_dir_all(&dir).map_err(|e| format!("unprivileged dir: {e}"))?;
+    std::fs::write(dir.join("cases.json"), serde_json::to_vec(cases).unwrap()).map_err(|e| format!("cases file: {e}"))?;
+    std::os::unix::fs::chown(&dir, Some(NOBODY), Some(NOBODY)).map_err(|e| format!("chown: {e}"))?;
+    let exe = std::env::current_exe().map_err(|e| format!("current_exe: {e}"))?;
+    let mut cmd = std::process::Command::new(exe);
+    cmd.arg(&ctx.property).arg(ctx.tier.as_str()).arg("--unprivileged-worker").arg(&dir);
+    cmd.env("HOME", &dir).env("TMPDIR", &dir);
+    if verbose {
+        cmd.env("C19_VERBOSE", "1");
+    }
+    cmd.uid(NOBODY).gid(NOBODY);
+    cmd.stdin(std::process::Stdio::null()).stderr(std::process::Stdio::inherit());
+    let out = cmd.output().map_err(|e| format!("cannot start the unprivileged worker: {e}"))?;
+    if !out.status.success() {
+        return Err(format!("unprivileged worker ended with {}", out.status));
+    }
+    let txt = String::from_utf8_lossy(&out.stdout);
+    let line = txt.lines().rev().find(|l| l.starts_with("{")).ok_or("unprivileged worker printed no report")?;
+    let v: Value = serde_json::from_str(line).map_err(|e| format!("unprivileged worker report: {e}"))?;
+    if v["uid"].as_u64() != Some(NOBODY as u64) {
+        return Err(format!("unprivileged worker ran as uid {}", v["uid"]));
+    }
+    Ok(report_from_json(&v["report"]))
+}
+
+fn unprivileged_worker(ctx: &Ctx, dir: &Path) -> ! {
+    use std::os::unix::fs::MetadataExt;
+    SCRATCH.set(dir.to_path_buf()).expect("scratch once");
+    let cases: Vec<Case> = serde_json::from_slice(&std::fs::read(dir.join("cases.json")).expect("cases file")).expect("cases json");
+    let verbose = std::env::var("C19_VERBOSE").is_ok();
+    let mut rep = Report::new("fault_enumeration", "");
+    for p in par_map(&cases, ctx.threads(), |_, c| run_case(c, verbose)) {
+        rep.merge(p);
+    }
+    let probe = dir.join("uid-probe");
+    std::fs::write(&probe, b"").expect("probe");
+    let uid = std::fs::metadata(&probe).map(|m| m.uid()).unwrap_or(0);
+    println!("{}", json!({"uid": uid, "report": report_to_json(&rep)}));
+    std::process::exit(0)
+}
 
 fn run_case(case: &Case, verbose: bool) -> Report {
     let mut rep = Report::new("fault_enumeration", "");
@@ -1668,6 +2206,9 @@ fn run_case(case: &Case, verbose: bool) -> Report {
         (Some(_), false) => "ancillary-not-kept",
     };
     rep.outcome(&format!("{}|{}|{}", if ok { "download-ok" } else { "download-err" }, anc_state, if j.violations.is_empty() { "listing-allowed" } else { "listing-VIOLATES" }));
+    if std::env::var("C19_TRACE").is_ok() {
+        eprintln!("TRACE\t{}\t{}\t{}\t{}\t{cj}", if ok { "ok" } else { "err" }, j.kept_immutables, j.kept_from_ancillary, j.violations.iter().map(|v| v.0.clone()).collect::<Vec<_>>().join(","));
+    }
     if let Some(d) = &obs.anc {
         match reference_valid(d, &signed(case.config.layout)) {
             Some(true) => rep.add_extra("ancillary_reference_valid", 1),
@@ -1700,7 +2241,11 @@ fn run_case(case: &Case, verbose: bool) -> Report {
 }
 
 pub fn run(ctx: &Ctx) -> ! {
+    if let Some(i) = ctx.extra_args.iter().position(|a| a == "--unprivileged-worker") {
+        unprivileged_worker(ctx, Path::new(&ctx.extra_args[i + 1]));
+    }
     SCRATCH.set(ctx.scratch()).expect("scratch once");
+    let root = running_as_root(SCRATCH.get().unwrap());
     if std::env::var("C19_LOUD").is_ok() {
         let _ = std::panic::take_hook();
     }
@@ -1712,7 +2257,9 @@ pub fn run(ctx: &Ctx) -> ! {
          (entries added at each position, removed, tampered, served as links; manifest alterations; stream cut after / \
          inside each entry, truncated compressed stream, missing archive) and of the target pre-state (directory / file \
          in the way of each listed file) is pushed through the real Client::cardano_database_v2().download_unpack with the \
-         real HttpFileDownloader on file:// archives; a case is non-trivial when the download wrote something into the \
+         real HttpFileDownloader on file:// archives; plus, for range 2..=3 with ancillary: every completion order of the \
+         three transfers and every abort of the batch while one transfer is pending (paced mirror), and entries with \
+         restrictive permissions executed by a non-root client; a case is non-trivial when the download wrote something into the \
          target directory or succeeded; distinct = distinct (configuration, alterations)",
     );
     rep.max_samples = 8;
@@ -1722,7 +2269,15 @@ pub fn run(ctx: &Ctx) -> ! {
             eprintln!("replay file does not describe a C19 case: {e}");
             std::process::exit(2)
         });
-        let r = run_case(&case, true);
+        let r = if root && case.needs_unprivileged() {
+            run_unprivileged(ctx, std::slice::from_ref(&case), true).unwrap_or_else(|e| {
+                let mut r = Report::new("fault_enumeration", "");
+                r.machinery_error(e);
+                r
+            })
+        } else {
+            run_case(&case, true)
+        };
         rep.merge(r);
         rep.nontrivial(&0);
         rep.nontrivial(&1);
@@ -1748,12 +2303,23 @@ pub fn run(ctx: &Ctx) -> ! {
             "entries_added_to_the_ancillary_archive": anc_extras().iter().map(|x| x.name.clone()).collect::<Vec<_>>(),
             "manifest_alterations": ["HashChanged(i)", "EntryRemoved(i)", "MergeWithNext(i)", "EntryAddedFilePresent", "EntryAddedFileAbsent", "SigRemoved", "SigAltered", "SigOtherKey", "Missing", "Garbage", "SecondEvilLast", "SecondEvilFirst"],
             "stream_faults_per_archive": ["CutBoundary(k) for every k", "CutMid(entry) for every entry", "CutCompressed", "Missing"],
+            "pace_of_the_mirror": ["every completion order of the transfers (range 2..=3 + ancillary)", "every (held, failing) pair: Hold = received and unpacked but pending, Fail = error answer, the rest completes first", "held ancillary transfer pending after every number of entries"],
             "other": ["Remove(i)", "Tamper(i)", "AsSymlink(i, relative|absolute)", "PreDirAt(each listed ancillary file, first immutable .primary)", "PreFileAt(ledger|immutable)"],
         }),
     );
+    rep.extra("cases_with_paced_mirror", json!(cases.iter().filter(|c| c.schedule != Schedule::Free).count()));
+    rep.extra("cases_with_abort_while_a_transfer_is_pending", json!(cases.iter().filter(|c| c.holds()).count()));
+    let (unpriv, cases): (Vec<Case>, Vec<Case>) = cases.into_iter().partition(|c| root && c.needs_unprivileged());
+    rep.extra("cases_run_by_a_client_that_is_not_root", json!(if root { unpriv.len() } else { cases.iter().filter(|c| c.needs_unprivileged()).count() }));
     let parts = par_map(&cases, ctx.threads(), |_, c| run_case(c, false));
     for p in parts {
         rep.merge(p);
+    }
+    if !unpriv.is_empty() {
+        match run_unprivileged(ctx, &unpriv, false) {
+            Ok(r) => rep.merge(r),
+            Err(e) => rep.machinery_error(e),
+        }
     }
     if std::env::var("C19_PROFILE").is_ok() {
         eprintln!(
@@ -1765,9 +2331,10 @@ pub fn run(ctx: &Ctx) -> ! {
         );
     }
     rep.assume("max_parallel_downloads = 1 in altered cases (archives are fetched one after the other, immutables ascending, then ancillary), so that the outcome of a failing download is deterministic; the honest download is also run with the default 20");
-    rep.assume("with the ancillary option the trio BEACON+1 is accepted by name inside immutable/ whatever archive delivered it (the clean-up's own allowance); the bytes of immutable files are C10's business");
+    rep.assume("pace of the mirror (order of completion, a transfer whose end is pending, an error answer) is played by a wrapper around the real RetryDownloader(HttpFileDownloader) that only decides when a call is forwarded and whether its return is reported; 'pending' means: everything served so far received and unpacked, the call never returns");
+    rep.assume("the bytes of immutable files of the requested range are C10's business");
     rep.assume("directories are not counted as files: an empty directory left behind is reported as an observation only");
-    rep.assume("the process runs as root: permission-based faults (read-only directories) are not in the space");
+    rep.assume("entries carrying restrictive permissions are run by this binary re-started as uid/gid 65534 when the check itself runs as root (root is not constrained by permission bits)");
     rep.assume("the tar / zstd / flate2 crates the client links are part of the code under test, not of the oracle; the harness writes archives with the same crates' encoders");
     rep.finish(ctx)
 }
